@@ -24,7 +24,18 @@ TRUNCATIONS = [
     'define g begin repeat 2 begin set "Candle" begin stage row 0',  # all three nested
 ]
 INVALID = ['hue', 'break', 'assign 5 5', 'set', 'xyz 1', 'define f begin end end', 'units metric',
-           'time at 25:00', 'repeat 2 with i from 1 hue 5', 'on all off', '{ 5 }', ')']
+           'time at 25:00', 'repeat 2 with i from 1 hue 5', 'on all off', '{ 5 }', ')',
+           # rejected at every stage of a definition, a loop header, an assignment, a macro
+           'define fade with level rate level begin hue level end',
+           'define fade with level rate begin hue level brightness nosuch end',
+           'define fade with level rate', 'define fade with level 5',
+           'define speed 5 define speed 6', 'define speed', 'define limit {',
+           'assign total', 'assign total {1 +', 'assign total nosuch',
+           'repeat with idx from 1', 'repeat with idx from 1 to nosuch begin print idx end',
+           'repeat all as lamp with', 'repeat in "a" as lamp with idx from', 'repeat 3 with idx cycle nosuch',
+           'define outer begin define inner begin end end',
+           'define deep begin ' + 'if {1 > 0} ' * 400 + 'on all end',
+           'assign kept 5 define fn with p begin assign loc p end xyz']
 
 
 # scripts whose loading relocates jumps (a routine defined inside an if / else / repeat body)
@@ -91,10 +102,23 @@ def parse_histories(chk, stats):
                 break
         else:
             chk.nontrivial_case(tuple(seq))
-    # every truncation kind immediately followed by a statement that needs clean state
+    # every truncation kind immediately followed by a statement that needs clean state, and by
+    # uses of every name the earlier text mentioned (as a value, an operand, a routine, an
+    # assignment target): nothing the rejected or accepted text declared may be known afterwards
+    import re as _re
+    words = {'define', 'with', 'begin', 'end', 'hue', 'brightness', 'repeat', 'from', 'to', 'all', 'as',
+             'in', 'set', 'on', 'off', 'print', 'assign', 'if', 'cycle', 'stage', 'row', 'units', 'time',
+             'at', 'break', 'metric', 'xyz', 'nosuch'}
     for trunc in TRUNCATIONS + INVALID:
+        names = [w for w in dict.fromkeys(_re.findall(r'[a-zA-Z_][a-zA-Z0-9_]*', _re.sub(r'"[^"]*"', '', trunc)))
+                 if w not in words][:6]
+        uses = []
+        for nm in names:
+            uses += ['hue {}'.format(nm), 'set {}'.format(nm), '{} 1'.format(nm), 'print {{{} + 1}}'.format(nm),
+                     'assign {} 1 print {}'.format(nm, nm), 'define {} 7 print {}'.format(nm, nm),
+                     'define {} begin print 2 end {}'.format(nm, nm)]
         for follow in ['on all', 'set "A" and "B"', 'hue 5 break', 'define f begin print 1 end f',
-                       'stage row 1', 'return 5', 'print 1']:
+                       'stage row 1', 'return 5', 'print 1'] + uses:
             used = Parser()
             compile_result(used, trunc)
             got = compile_result(used, follow)
